@@ -1,0 +1,32 @@
+//go:build verif
+
+// Package verifhook provides interleaving points for external runtime
+// monitors. With the `verif` build tag a callback installed with Set is
+// invoked at every At call; without the tag At is an empty function.
+package verifhook
+
+import "sync/atomic"
+
+type Func func(point string, scope any)
+
+var cb atomic.Pointer[Func]
+
+// Enabled reports whether hooks are compiled in.
+const Enabled = true
+
+// Set installs (or with nil removes) the callback.
+func Set(f Func) {
+	if f == nil {
+		cb.Store(nil)
+		return
+	}
+	cb.Store(&f)
+}
+
+// At reports that the calling goroutine is about to pass the named point of
+// the instance identified by scope.
+func At(point string, scope any) {
+	if f := cb.Load(); f != nil {
+		(*f)(point, scope)
+	}
+}
